@@ -16,8 +16,7 @@ func ZZ_C14_S1() {
 		self[i] = owner == 0
 		_ = d.AddStake(NewStakeWithPower(zzAddr(owner), zzAddr(0), pre[i], 1, zzHash(i)))
 	}
-	ratio := zzverif.NondetI64("ratio")
-	zzverif.Assume(ratio >= 0 && ratio <= 100)
+	ratio := zzverif.NondetI64In("ratio", 0, 100)
 
 	slashed := d.DoSlash(ratio)
 
@@ -61,8 +60,7 @@ func ZZ_C14_S3() {
 	var marks []int64
 	last := int64(0)
 	for i := 0; i < n; i++ {
-		h := zzverif.NondetI64("mark")
-		zzverif.Assume(h > 0 && h < 1<<40)
+		h := zzverif.NondetI64In("mark", 1, 1<<40)
 		xerr := bm.Mark(h)
 		if h > last {
 			zzverif.Assert(xerr == nil, "S3 increasing mark accepted")
@@ -72,9 +70,8 @@ func ZZ_C14_S3() {
 			zzverif.Assert(xerr != nil, "S3 non-increasing mark rejected")
 		}
 	}
-	h0 := zzverif.NondetI64("h0")
-	h1 := zzverif.NondetI64("h1")
-	zzverif.Assume(h0 >= 0 && h1 >= 0 && h0 < 1<<40 && h1 < 1<<40)
+	h0 := zzverif.NondetI64In("h0", 0, 1<<40)
+	h1 := zzverif.NondetI64In("h1", 0, 1<<40)
 	got := bm.CountInWindow(h0, h1, true)
 	want := 0
 	for _, m := range marks {
